@@ -149,8 +149,107 @@ def check_configs():
     return None
 
 
+
+def check_memory_share():
+    """the memory figure of pool jobs (<cloud>_cores_mcpu_to_memory_bytes): every packing of equal power-of-two requests and every
+    pair of requests on every pool machine type of the real tables stays within the worker's memory, whole worker = exactly"""
+    import batch.cloud.azure.resource_utils as AZU
+    import batch.cloud.gcp.resource_utils as GCU
+
+    pools = []
+    for wt, cores_list in GCU.gcp_valid_cores_for_pool_worker_type.items():
+        for cores in cores_list:
+            mt = GCU.family_worker_type_cores_to_gcp_machine_type(GCU.GCP_MACHINE_FAMILY, wt, cores)
+            parts = GCU.gcp_machine_type_to_parts(mt)
+            if parts is not None:
+                pools.append(('gcp', mt, cores, parts.memory, (lambda wt: lambda mcpu: GCU.gcp_cores_mcpu_to_memory_bytes(mcpu, GCU.GCP_MACHINE_FAMILY, wt))(wt)))
+    for wt, cores_list in AZU.azure_valid_cores_from_worker_type.items():
+        for cores in cores_list:
+            for ssd in (True, False):
+                mt = AZU.azure_worker_properties_to_machine_type(wt, cores, ssd)
+                parts = AZU.azure_machine_type_to_parts(mt)
+                if parts is not None:
+                    pools.append(('azure', mt, cores, parts.memory, (lambda wt: lambda mcpu: AZU.azure_cores_mcpu_to_memory_bytes(mcpu, wt))(wt)))
+    if not pools:
+        return None
+    for cloud, mt, cores, memory, helper in pools:
+        whole = helper(cores * 1000)
+        if whole != memory:
+            return {'confirmed': True, 'what': 'a job using the whole worker is not given (and billed) exactly the memory of the worker', 'cloud': cloud, 'machine_type': mt, 'cores': cores, 'worker_memory_bytes': memory, 'memory_of_the_whole_worker_job': whole}
+        reqs = [m for m in (250, 500) + tuple(1000 * 2 ** k for k in range(8)) if m <= cores * 1000]
+        for m in reqs:
+            n = cores * 1000 // m
+            if n * helper(m) > memory:
+                return {'confirmed': True, 'what': 'jobs packed on one worker are given (and billed) more memory than the whole worker has', 'cloud': cloud, 'machine_type': mt, 'worker_memory_bytes': memory, 'jobs': n, 'mcpu_each': m, 'memory_bytes_each': helper(m), 'total': n * helper(m)}
+        for x, y in itertools.product(reqs, reqs):
+            if x + y <= cores * 1000 and helper(x) + helper(y) > helper(x + y):
+                return {'confirmed': True, 'what': 'memory of two jobs exceeds the memory of one job with their cores', 'cloud': cloud, 'machine_type': mt, 'mcpu1': x, 'mcpu2': y, 'memory1': helper(x), 'memory2': helper(y), 'memory_of_sum': helper(x + y)}
+    return None
+
+
+def check_worker_job():
+    """what the worker bills a job: the statements of worker.py Job.__init__ from reading the spec's resources to the
+    quantified_resources call, executed from the real source text (worker.py itself cannot be imported: it reads the
+    environment and starts clients at import time) with real instance configs"""
+    import ast
+
+    from batch.globals import RESERVED_STORAGE_GB_PER_CORE
+
+    src = open(os.path.join(repo, 'batch', 'batch', 'worker', 'worker.py')).read()
+    tree = ast.parse(src)
+    jobs = [c for c in tree.body if isinstance(c, ast.ClassDef) and c.name == 'Job']
+    if not jobs:
+        return None
+    inits = [n for n in jobs[0].body if isinstance(n, ast.FunctionDef) and n.name == '__init__']
+    if not inits:
+        return None
+    body = inits[0].body
+    texts = [ast.unparse(x) for x in body]
+    starts = [i for i, t in enumerate(texts) if 'job_spec' in t and 'resources' in t]
+    ends = [i for i, t in enumerate(texts) if 'quantified_resources(' in t]
+    if not starts or not ends or ends[-1] < starts[0]:
+        return None
+    code = compile(ast.Module(body=body[starts[0]: ends[-1] + 1], type_ignores=[]), 'worker.py-Job.__init__-fragment', 'exec')
+
+    class J:
+        pass
+
+    def job_on(cfg, cloud, cores_mcpu, memory, storage):
+        j = J()
+        env = {'self': j, 'job_spec': {'resources': {'cores_mcpu': cores_mcpu, 'memory_bytes': memory, 'storage_gib': storage}}, 'instance_config': cfg, 'CLOUD': cloud,
+               'is_valid_storage_request': lambda cloud, gib: 10 <= gib, 'RESERVED_STORAGE_GB_PER_CORE': RESERVED_STORAGE_GB_PER_CORE, 'log': None}
+        exec(code, env)  # pylint: disable=exec-used
+        return j
+
+    def res(job_private, cloud):
+        if cloud == 'gcp':
+            return GCPSlimInstanceConfig('n1-standard-8', True, False, 100, 10, job_private, [GC.GCPComputeResource('compute/n1-preemptible/1'), GC.GCPMemoryResource('memory/n1-preemptible/1'), GC.GCPStaticSizedDiskResource('disk/pd-ssd/1', 10), GC.GCPStaticSizedDiskResource('disk/pd-ssd/1', 100), GC.GCPDynamicSizedDiskResource('disk/pd-ssd/1'), GC.GCPIPFeeResource('ip-fee/1024/1'), GC.GCPServiceFeeResource('service-fee/1')])
+        disks = {d.name: 'az/disk/%s/eastus/1' % d.name for d in AZ.azure_disks_by_disk_type['P']}
+        return AzureSlimInstanceConfig('Standard_D8ds_v4', True, False, 100, 30, job_private, [AZ.AzureVMResource('az/vm/Standard_D8ds_v4/spot/eastus/1'), AZ.AzureStaticSizedDiskResource('az/disk/E4_LRS/eastus/1', 32), AZ.AzureDynamicSizedDiskResource('P', 'eastus', disks), AZ.AzureIPFeeResource('az/ip-fee/1024/1'), AZ.AzureServiceFeeResource('az/service-fee/1')])
+
+    for cloud in ('gcp', 'azure'):
+        for storage in (0, 10, 100):
+            cfg = res(True, cloud)
+            cores_mcpu, memory = cfg.cores * 1000, cfg.instance_memory()
+            try:
+                j = job_on(cfg, cloud, cores_mcpu, memory, storage)
+            except Exception:  # the fragment needs names this harness does not provide: no verdict  # pylint: disable=broad-except
+                return None
+            whole = cfg.quantified_resources(cpu_in_mcpu=cores_mcpu, memory_in_bytes=memory, extra_storage_in_gib=0)
+            if getattr(j, 'resources', None) != whole:
+                return {'confirmed': True, 'what': 'the job that owns a job-private worker is not billed exactly the whole worker', 'cloud': cloud, 'job_spec_resources': {'cores_mcpu': cores_mcpu, 'memory_bytes': memory, 'storage_gib': storage}, 'billed_to_the_job': getattr(j, 'resources', None), 'whole_worker': whole}
+            if getattr(j, 'external_storage_in_gib', None) != 0:
+                return {'confirmed': True, 'what': 'external storage attached on a job-private instance', 'cloud': cloud, 'external_storage_in_gib': getattr(j, 'external_storage_in_gib', None)}
+            pool = res(False, cloud)
+            j = job_on(pool, cloud, 1000, 1024 ** 3, storage)
+            want = pool.quantified_resources(1000, 1024 ** 3, storage)
+            if getattr(j, 'resources', None) != want or getattr(j, 'external_storage_in_gib', None) != storage:
+                return {'confirmed': True, 'what': 'a pool job is not billed the quantities of its spec (cpu, memory, requested external storage)', 'cloud': cloud, 'storage_gib': storage, 'billed': getattr(j, 'resources', None), 'expected': want, 'external_storage_attached': getattr(j, 'external_storage_in_gib', None)}
+    return None
+
+
 res = None
-for f in (check_resources, check_fraction, check_configs):
+for f in (check_resources, check_fraction, check_configs, check_memory_share, check_worker_job):
     res = f()
     if res:
         break
